@@ -1,6 +1,7 @@
 import Driver.Proto
 import Driver.C18
 import NiflyVerif.Mesh.Delete
+import NiflyVerif.Mesh.PartDelete
 namespace Driver.C09
 open Nifly.Util Nifly.Mesh Driver
 
@@ -22,6 +23,14 @@ def handlers : List (String × Handler) := [
     | [w, idx] =>
       let ws : List (Nat × Nat) := if w == "-" then [] else (w.splitOn ",").map fun x => (x.toNat!, 0)
       showNatList ((deleteWeights ws (parseNatList idx)).map (·.1))
+    | _ => "bad-op"),
+  -- c09.part <mapped 0|1> <mapSize> <idx> <vertex map> <tris> -> new vertex map, surviving positions, new triangles
+  ("c09.part", fun a => match a with
+    | [m, ms, idx, vm, tris] =>
+      let vmap := parseNatList vm
+      let p : SkinPart Nat := { vmap := vmap, weights := List.range vmap.length, tris := parseTris tris }
+      let q := deletePart (m == "1") ms.toNat! (parseNatList idx) p
+      showNatList q.vmap ++ " " ++ showNatList q.weights ++ " " ++ showTrisDot q.tris
     | _ => "bad-op")
 ]
 end Driver.C09
